@@ -34,6 +34,7 @@ import (
 	"gopkg.in/yaml.v2"
 
 	"dvh/internal/corekit"
+	"dvh/internal/crashstore"
 	"dvh/internal/memstore"
 	"dvh/internal/tr"
 
@@ -629,6 +630,66 @@ func c05Case(c *ctx, caseNo int, kind string, a, b c05Tree, leafA, leafB uint32,
 			res += " ##" + aux
 		}
 		c.w.Op("update store="+kindStore+opTail, res)
+	}
+	// ---- the same update under an unfriendly destination: ONE of its calls fails transiently, or it
+	// is slow and the configured concurrency is 0/negative (the CLI computes factor/10). Either Update
+	// reports an error, or — the moment it returns nil — the copy is what a fresh download leaves.
+	if !sameBundle {
+		fr := tr.NewRng(c.seed*977 + uint64(caseNo)*7919 + 5)
+		for _, variant := range []string{"fault", "fault", "slow"} {
+			dest2 := memstore.New("dest")
+			if corekit.Recover(func() error {
+				return core.Publish(context.Background(), corekit.NewBundle(env.Stores, repo, dest2, 0, idA))
+			}) != nil {
+				break
+			}
+			g := &crashstore.Group{}
+			conc := 10
+			detail := ""
+			if variant == "fault" {
+				g.FailOnceAt = 1 + fr.Intn(len(esA)+len(esB)+2)
+				detail = fmt.Sprintf("at=%d", g.FailOnceAt)
+			} else {
+				conc = fr.Pick(0, 0, -1, 1, 2)
+				g.Hook = func(_, op, key string) {
+					if (op == "put" || op == "delete") && !strings.HasPrefix(key, ".datamon") {
+						time.Sleep(15 * time.Millisecond)
+					}
+				}
+				detail = fmt.Sprintf("conc=%d", conc)
+			}
+			wd := crashstore.Wrap(g, "dest", dest2)
+			local := core.NewBundle(core.ConsumableStore(wd), core.Logger(corekit.Nop), core.ConcurrentFileDownloads(conc))
+			remote := corekit.NewBundle(env.Stores, repo, nil, 0, idB, core.ConcurrentFileDownloads(conc))
+			uerr := corekit.Recover(func() error { return core.Update(context.Background(), remote, local) })
+			snap := dest2.Snapshot() // at once: nothing may still be in flight after a nil return
+			if variant == "fault" {
+				fired := false
+				for _, w := range g.Snapshot() {
+					if w.Err && !w.Landed {
+						fired = true
+					}
+				}
+				if !fired {
+					continue
+				}
+			}
+			got := "err"
+			if uerr == nil {
+				got = "same"
+				if len(snap) != len(fresh) {
+					got = fmt.Sprintf("differ:%d-objects-instead-of-%d", len(snap), len(fresh))
+				}
+				for k, v := range fresh {
+					if w, ok := snap[k]; !ok || !bytes.Equal(v, w) {
+						got = "differ:" + tr.Esc(k)
+					}
+				}
+			}
+			time.Sleep(20 * time.Millisecond)
+			c.w.Op(fmt.Sprintf("updatef variant=%s %s got=%s%s", variant, detail, got, opTail), "sound")
+			c.w.Count("update-unfriendly=" + variant)
+		}
 	}
 	c.w.End()
 	return nil
